@@ -78,10 +78,11 @@ def run(ctx):
         ops, out, meta = ctx.run_hx("ideal", 60 if quick else 600, binary=hx2, tag="-c02tie")
         ctx.correspond("shared garbling/protocol definitions vs real sessions (byte-exact transcripts)", ops, out)
     if ctx.build_hx():
-        plan = [("whole", 120 if quick else 1500), ("stream", 40 if quick else 400), ("sha2pc", 4 if quick else 24)]
-        for mode, n in plan:
-            ops, out, meta = ctx.run_hx(mode, n, timeout=2400)
-            ctx.absorb_meta(meta, prefix=mode + "_")
+        plan = [("whole", 120 if quick else 1500, ()), ("stream", 40 if quick else 400, ()),
+                ("stream", 6 if quick else 60, ("-extra", "long")), ("sha2pc", 4 if quick else 24, ())]
+        for mode, n, extra in plan:
+            ops, out, meta = ctx.run_hx(mode, n, timeout=2400, extra_args=extra, tag="-long" if extra else "")
+            ctx.absorb_meta(meta, prefix=mode + ("_long_" if extra else "_"))
             k = 0
             for line in open(ops, errors="replace"):
                 ctx.distinct.add(hashlib.sha1(line.encode()).digest())
@@ -91,8 +92,9 @@ def run(ctx):
         ctx.coverage["window_positions_scanned"] = sum(v for k, v in c.items() if k.endswith("window_positions"))
         if ctx.broken and not ctx.fails:
             for s in range(ctx.seed + 7000, ctx.seed + 7003):
-                for mode, n in (("whole", 800), ("stream", 200)):
-                    ops, out, meta = ctx.run_hx(mode, n, seed=s, tag="-widen", timeout=2400)
+                for mode, n, extra in (("whole", 800, ()), ("stream", 200, ()), ("stream", 30, ("-extra", "long"))):
+                    ops, out, meta = ctx.run_hx(mode, n, seed=s, tag="-widen" + ("-long" if extra else ""), timeout=2400,
+                                                extra_args=extra)
                     ctx.absorb_meta(meta, prefix="widen_")
                 if ctx.fails:
                     break
